@@ -66,7 +66,24 @@ var modelled = []string{"WithBroadcast", "WithClientIP", "WithDNS", "WithDomainS
 
 func drawMod(r *rand.Rand) mod {
 	be32 := func(v uint32) []byte { return []byte{byte(v >> 24), byte(v >> 16), byte(v >> 8), byte(v)} }
-	switch r.IntN(26) {
+	switch r.IntN(27) {
+	case 26: // WithReply as a modifier of the caller's: the packet becomes the answer to ANOTHER packet, whatever its opcode
+		other := &dhcpv4.DHCPv4{OpCode: dhcpv4.OpcodeType([]byte{1, 2, 0, 7, 255, 1}[r.IntN(6)]), HWType: iana.HWType([]uint16{1, 6, 32, 0}[r.IntN(4)]), Options: dhcpv4.Options{}}
+		for i := range other.TransactionID {
+			other.TransactionID[i] = byte(r.UintN(256))
+		}
+		hw := gen4.Bytes(r, []int{6, 6, 8, 16, 0}[r.IntN(5)])
+		other.ClientHWAddr = net.HardwareAddr(hw)
+		other.Flags = []uint16{0, 0x8000, 0xffff, 0x0001}[r.IntN(4)]
+		o := *other
+		return mod{"WithReply", dhcpv4.WithReply(other), func(m *ref4.P4) {
+			m.Op = 1
+			if o.OpCode == dhcpv4.OpcodeBootRequest {
+				m.Op = 2
+			}
+			m.HType, m.Xid, m.Flags = byte(o.HWType), o.TransactionID, o.Flags
+			m.CHAddr, m.HLen = append([]byte{}, hw...), byte(len(hw))
+		}, fmt.Sprintf("reply-to(op=%d xid=%x hw=%x flags=%x)", o.OpCode, o.TransactionID, hw, o.Flags)}
 	case 24, 25: // an option copied from another packet (a server echoing what a relay sent): overrides like any other modifier
 		code := []byte{82, 61, 54, 55, 12, 60}[r.IntN(6)]
 		donor := &dhcpv4.DHCPv4{Options: dhcpv4.Options{}}
